@@ -150,7 +150,7 @@ def m4(ctx):
     if s is not None:
         ctx.instance(SPIN)
         ctx.oblige(1, sample='spin_cond: return unreachable once cond()==true edges are removed')
-        removed, ncond = cond_true_edges(s)
+        removed, ncond = cond_true_edges(s, ctx.facts)
         if ncond == 0:
             ctx.violate(SPIN, None, 'spin_cond never calls its condition', sig='no-cond')
         reach = s.reachable(0, removed_edges=removed)
@@ -162,7 +162,7 @@ def m4(ctx):
         condblocks = set()
         for bi in s.normal_blocks():
             tt = s.blocks[bi]['term']
-            if tt['k'] == 'call' and tt.get('fn') and canon(tt['fn']['path']) in ('std::ops::Fn::call', 'std::ops::FnMut::call_mut', 'std::ops::FnOnce::call_once'):
+            if is_cond_call(ctx.facts, tt):
                 condblocks.add(bi)
         for (src, dst) in sorted(removed):
             ctx.oblige(1, sample='cond()==true edge bb%d->bb%d leads straight to return' % (src, dst))
@@ -191,15 +191,65 @@ def m4(ctx):
                     src, dst, 're-evaluates the condition' if bad[0] == 'cond' else 'enters a loop'), at=s.blocks[bad[1]]['term'].get('at'), sig='no-return-after-success')
 
 
-def cond_true_edges(body):
-    """edges (b, succ) taken when a call of the `cond` argument returned true, and the number of cond() calls"""
+FN_CALLS = ('std::ops::Fn::call', 'std::ops::FnMut::call_mut', 'std::ops::FnOnce::call_once')
+
+
+def cond_like(facts, key, _seen=None):
+    """a crate-local helper that evaluates the condition closure it is given and returns true ONLY if the condition was
+    observed true (e.g. `fn poll_cond(cond, tries) -> bool { for _ in 0..tries { if cond() { return true } } false }`)"""
+    b = facts.bodies.get(key)
+    if b is None or b.j.get('def_kind') != 'Fn' and b.j.get('def_kind') != 'AssocFn':
+        return False
+    cache = facts.__dict__.setdefault('_condlike', {})
+    if key in cache:
+        return cache[key]
+    cache[key] = False
+    if not any(n in FN_CALLS for n in b.callee_names()):
+        return False
+    ps = b.paths(1)
+    if not ps:
+        return False
+    ok = True
+    for p in ps:
+        if p.end != 'return':
+            continue
+        r = p.ret
+        if r is None:
+            ok = False
+            break
+        if r[0] == 'const' and r[1] == 'bool' and r[2] == '0':
+            continue
+        if r[0] == 'call' and r[2] in FN_CALLS:
+            continue
+        if r[0] == 'const' and r[1] == 'bool' and r[2] == '1':
+            conds = [e for e in p.events if e.kind == 'br' and e.label == 'cond']
+            if conds and conds[-1].outcome == 'T':
+                continue
+        ok = False
+        break
+    cache[key] = ok
+    return ok
+
+
+def is_cond_call(facts, t):
+    if t['k'] != 'call' or not t.get('fn'):
+        return False
+    n = canon(t['fn']['path'])
+    if n in FN_CALLS:
+        return True
+    if facts is not None and t['fn'].get('local') and cond_like(facts, t['fn']['path']):
+        return True
+    return False
+
+
+def cond_true_edges(body, facts=None):
+    """edges (b, succ) taken when a call of the `cond` argument (or of a cond-like helper) returned true, and the number
+    of such calls"""
     removed = set()
     ncond = 0
     for bi in body.normal_blocks():
         t = body.blocks[bi]['term']
-        if t['k'] != 'call' or not t.get('fn'):
-            continue
-        if canon(t['fn']['path']) not in ('std::ops::Fn::call', 'std::ops::FnMut::call_mut', 'std::ops::FnOnce::call_once'):
+        if not is_cond_call(facts, t):
             continue
         # callee object must be the first argument of spin_cond (the closure parameter)
         a0 = t['args'][0] if t['args'] else None
@@ -261,7 +311,7 @@ def m5(ctx):
             t = s.blocks[bi]['term']
             if t['k'] == 'call' and t.get('fn'):
                 n = canon(t['fn']['path'])
-                if n in ('std::ops::Fn::call', 'std::ops::FnMut::call_mut'):
+                if is_cond_call(ctx.facts, t):
                     has_cond = True
                 if n == 'std::iter::Iterator::next' and any('Range' in a for a in t['fn']['args']):
                     # bounded if the None edge leaves the component
